@@ -209,11 +209,23 @@ def ref_diff(prev, cur):
     return ev
 
 
+POLL_FILTERS = [["FileSystemMovedEvent"], ["FileSystemEvent"], ["FileCreatedEvent", "DirDeletedEvent"], ["DirModifiedEvent", "FileMovedEvent"], ["FileModifiedEvent"],
+                ["FileSystemMovedEvent", "DirCreatedEvent"], ["DirMovedEvent", "FileDeletedEvent"], []]
+
+
+def accepted(filt, shape):
+    """isinstance semantics of an event filter over an event shape (type, is_directory, src, dest)."""
+    if filt is None:
+        return True
+    cls = ("Dir" if shape[1] else "File") + shape[0].capitalize() + "Event"
+    return cls in filt or "FileSystemEvent" in filt or (shape[0] == "moved" and "FileSystemMovedEvent" in filt)
+
+
 class C10(Scenario):
     prop = "C10"
     level = "fault_enumeration"
     design_ref = "DESIGN.md 3.4, 4/C10"
-    rule = ("mode A (exact, 75%): VFS histories over names {a,b,c} depth<=3 (create/delete/rename/modify/replace inode or kind/rotate/swap/twin identity on another device/recycle = an inode number passes to a new entry of the other kind/remove root) applied only between polls; one failure "
+    rule = ("mode A (exact, 75%; a fifth of these with an event filter on the watch - concrete classes, base classes, the empty filter - and the reference restricted accordingly): VFS histories over names {a,b,c} depth<=3 (create/delete/rename/modify/replace inode or kind/rotate/swap/twin identity on another device/recycle = an inode number passes to a new entry of the other kind/remove root) applied only between polls; one failure "
             "(ENOENT/ENOTDIR/EACCES) injected at the k-th stat/listdir call of one poll's walk, k cycling with the run index over every call position of that walk (16 consecutive run indices share "
             "one history); recursive and non-recursive; mode B (racing, 25%): the mutator interleaves with the walk at every VFS call; distinct = distinct (history, fault position, errno, "
             "interleaving); non-trivial = a fault fired, or a racing mutation landed inside a walk, or a pre-emption was taken; 15% of the runs step the wall clock by +-0.5/1/3 intervals between and during polls")
@@ -289,9 +301,18 @@ class C10(Scenario):
             # wall-clock steps between and during polls: the poll cadence is a matter of elapsed time
             span = (len(rounds) + 1) * TICKS
             sched["clock_jumps"] = [[frng.randrange(0, span + 1), frng.choice([1, -1]) * frng.choice([TICKS // 2, TICKS, 3 * TICKS])] for _ in range(frng.choice([1, 1, 2]))]
-        return {"pre": pre, "between": between, "rounds": rounds, "recursive": recursive, "racing": racing, "fault": fault, "interval": 1.0, "sched": sched}
+        case = {"pre": pre, "between": between, "rounds": rounds, "recursive": recursive, "racing": racing, "fault": fault, "interval": 1.0, "sched": sched}
+        frng = random.Random(f"{seed}:filter")
+        if not racing and frng.random() < 0.2:
+            # the polling watch carries an event filter (concrete and base classes): it delivers exactly the accepted part of the diff
+            case["filter"] = frng.choice(POLL_FILTERS)
+        return case
 
     def shrink(self, case):
+        if case.get("filter"):
+            c = copy.deepcopy(case)
+            del c["filter"]
+            yield c
         for ri in range(len(case["rounds"]) - 1, -1, -1):
             for cand in drop_each(case["rounds"][ri]):
                 c = copy.deepcopy(case)
@@ -353,7 +374,8 @@ class C10(Scenario):
                     hist["events"].append((sim.now, sh))
 
             obs = api.BaseObserver(functools.partial(Em, stat=vfs.stat, listdir=vfs.listdir), timeout=interval)
-            obs.schedule(H(), ROOT, recursive=case["recursive"])
+            filt = case.get("filter")
+            obs.schedule(H(), ROOT, recursive=case["recursive"], event_filter=None if filt is None else [getattr(wev, n) for n in filt])
             for op in case.get("between", []):  # the baseline is the tree at start(), not at schedule()
                 vfs.apply(op)
             hist["states"][0] = vfs.state()
@@ -434,11 +456,11 @@ class C10(Scenario):
             fault = (fl[0][2], fl[0][3], fl[0][4]) if fl else None
             cur = effective_state(raw, rec, fault)
             if cur is None:
-                if got != [("deleted", True, ROOT, "")]:
+                if got != [e for e in [("deleted", True, ROOT, "")] if accepted(case.get("filter"), e)]:
                     v.append(Violation("root-gone", "C10:root-gone-events", f"poll {i}: root gone (fault={fault}) but delivered {got}"))
                 stopped = True
                 continue
-            exp = ref_diff(prev, cur)
+            exp = [e for e in ref_diff(prev, cur) if accepted(case.get("filter"), e)]
             ok = self.same_multiset(exp, got)
             if not ok:
                 missing = [e for e in exp if e not in got and not (e[0] == "modified" and any(g[0] == "modified" and g[1] == e[1] for g in got))]
